@@ -1315,6 +1315,12 @@ where
     let h1 = [v[1] % S::POOL, v[2] % S::POOL, v[3] % S::POOL];
     let h2 = [v[5] % S::POOL, v[3] % S::POOL, v[6] % S::POOL, v[5] % S::POOL];
     let mut r = S::default();
+    if v[6] % 2 == 1 {
+        // an earlier life, ended by clear, before the history that is serialised
+        let _ = r.put(h2[0]);
+        let _ = r.put(h2[2]);
+        r.clear();
+    }
     let mut issued = Vec::new();
     for k in h1.iter().take((v[4] % 4) as usize) {
         issued.push(r.put(*k));
@@ -1416,7 +1422,7 @@ fn doms_serde() -> Vec<Vec<u64>> {
 pub fn harnesses_serde() -> Vec<H> {
     if cfg!(all(feature = "serde-harness", not(kani))) {
         vec![H { name: "serde_roundtrip", props: &["C16", "C11"], nargs: 7, pre: pre_serde, doms: doms_serde, run: run_serde, panic_ok: false,
-            bound: "17 compositions + 3 FlatStacks (consecutive pairs over IndexOptimized; MirrorRegion<usize> over IndexOptimized and over IndexList with values up to 2^33): history of 0..3 pushes from a pool of 4-6 values, serde_json round trip, then 4 further pushes on the original and on the restored copy: same indices, same reads at every issued index, same used bytes; the restored copy cleared and refilled like a default region", kani: false }]
+            bound: "17 compositions + 3 FlatStacks (consecutive pairs over IndexOptimized; MirrorRegion<usize> over IndexOptimized and over IndexList with values up to 2^33): history of 0..3 pushes from a pool of 4-6 values (optionally after an earlier life ended by clear), serde_json round trip, then 4 further pushes on the original and on the restored copy: same indices, same reads at every issued index, same used bytes; the restored copy cleared and refilled like a default region", kani: false }]
     } else {
         vec![]
     }
